@@ -181,7 +181,7 @@ def one(r, case):
             r.exc.append(core.exc_bucket(exc))
             r.label("exmod-raised")
         created, deleted, changed = monitor.snapshot_diff(before, after)
-        writes = [(ev, p) for ev, p in monitor.write_events(events) if os.path.abspath(p).startswith(root) or not p.startswith(("/dev/", "/proc/"))]
+        writes = [(ev, p) for ev, p in monitor.write_events(events, only_from=core.REPO) if os.path.abspath(p).startswith(root) or not p.startswith(("/dev/", "/proc/"))]
         src_root = os.path.join(root, pkg)
         if case["dry"]:
             if created or deleted or changed:
